@@ -15,7 +15,7 @@ def _is_special(x):
 def lift(x):
     """python / numpy / symbolic number -> z3 real term (finite values only)"""
     if isinstance(x, SV):
-        return x.e
+        return z3.ToReal(x.e) if x.e.is_int() else x.e
     if isinstance(x, SB):
         return z3.If(x.e, z3.RealVal(1), z3.RealVal(0))
     if isinstance(x, SIdx):
@@ -37,6 +37,34 @@ def lift(x):
     raise TypeError(f"lift: {type(x)}")
 
 
+def raw_term(x, want_int):
+    """z3 term of x; Int-sorted when want_int and x is integer-like (python int / Int-sorted SV / SIdx)"""
+    if want_int:
+        if isinstance(x, SV) and x.e.is_int():
+            return x.e
+        if isinstance(x, SIdx):
+            return x.e
+        if isinstance(x, (int, _np.integer)) and not isinstance(x, (bool, _np.bool_)):
+            return z3.IntVal(int(x))
+        if isinstance(x, (float, _np.floating)) and math.isfinite(x) and float(x) == int(x) and abs(x) < 2 ** 53:
+            return z3.IntVal(int(x))
+    return lift(x)
+
+
+def int_sorted(x):
+    return (isinstance(x, SV) and x.e.is_int()) or isinstance(x, SIdx)
+
+
+def arith_pair(a, b):
+    """terms for a binary operation: both Int when one side is Int-sorted and the other integer-like, else both Real.
+    (z3 decides integrality arguments on Int terms instantly but diverges on the same facts written through to_real.)"""
+    if int_sorted(a) or int_sorted(b):
+        ta, tb = raw_term(a, True), raw_term(b, True)
+        if ta.is_int() and tb.is_int():
+            return ta, tb
+    return lift(a), lift(b)
+
+
 def bexpr(x):
     if isinstance(x, SB):
         return x.e
@@ -52,9 +80,9 @@ def bexpr(x):
 def mkbool(e):
     e = z3.simplify(e)
     if z3.is_true(e):
-        return True
+        return _np.True_      # numpy bools: `~x` must be logical negation as for numpy comparisons
     if z3.is_false(e):
-        return False
+        return _np.False_
     return SB(e)
 
 
@@ -130,7 +158,7 @@ class SB:
         return self
 
     def _num(self):
-        return SV(z3.If(self.e, z3.RealVal(1), z3.RealVal(0)), is_int=True)
+        return SV(z3.If(self.e, z3.IntVal(1), z3.IntVal(0)), is_int=True)
 
     def __add__(self, o):
         return self._num() + (o._num() if isinstance(o, SB) else o)
@@ -204,7 +232,11 @@ class SV:
             raise PathAbort("complex arithmetic")
         ii = keep_int and self.is_int and (
             (isinstance(o, SV) and o.is_int) or isinstance(o, (int, _np.integer)) and not isinstance(o, bool))
-        return SV(z3.simplify(f(self.e, lift(o))), is_int=ii)
+        if keep_int:
+            ta, tb = arith_pair(self, o)
+        else:
+            ta, tb = lift(self), lift(o)
+        return SV(z3.simplify(f(ta, tb)), is_int=ii)
 
     def __add__(self, o):
         return self._bin(o, lambda a, b: a + b, lambda s: s, True)
@@ -267,6 +299,11 @@ class SV:
     def __neg__(self):
         return SV(z3.simplify(-self.e), is_int=self.is_int)
 
+    @property
+    def r(self):
+        """Real-sorted term"""
+        return z3.ToReal(self.e) if self.e.is_int() else self.e
+
     def __pos__(self):
         return self
 
@@ -279,7 +316,7 @@ class SV:
         if isinstance(p, (SV, SB)):
             raise PathAbort("symbolic exponent")
         if p == 2:
-            return SV(self.sq) if self.sq is not None else SV(z3.simplify(self.e * self.e), is_int=self.is_int)
+            return SV(self.sq) if self.sq is not None else SV(z3.simplify(self.r * self.r), is_int=self.is_int)
         if p == 1:
             return self
         if p == 0:
@@ -314,25 +351,26 @@ class SV:
             return spec(float(o))
         if isinstance(o, (str, bytes)):
             return spec(math.nan)
-        return mkbool(f(self.e, lift(o)))
+        ta, tb = arith_pair(self, o)
+        return mkbool(f(ta, tb))
 
     def __lt__(self, o):
-        return self._cmp(o, lambda a, b: a < b, lambda s: s == math.inf)
+        return self._cmp(o, lambda a, b: a < b, lambda s: _np.bool_(s == math.inf))
 
     def __le__(self, o):
-        return self._cmp(o, lambda a, b: a <= b, lambda s: s == math.inf)
+        return self._cmp(o, lambda a, b: a <= b, lambda s: _np.bool_(s == math.inf))
 
     def __gt__(self, o):
-        return self._cmp(o, lambda a, b: a > b, lambda s: s == -math.inf)
+        return self._cmp(o, lambda a, b: a > b, lambda s: _np.bool_(s == -math.inf))
 
     def __ge__(self, o):
-        return self._cmp(o, lambda a, b: a >= b, lambda s: s == -math.inf)
+        return self._cmp(o, lambda a, b: a >= b, lambda s: _np.bool_(s == -math.inf))
 
     def __eq__(self, o):
-        return self._cmp(o, lambda a, b: a == b, lambda s: False)
+        return self._cmp(o, lambda a, b: a == b, lambda s: _np.False_)
 
     def __ne__(self, o):
-        return self._cmp(o, lambda a, b: a != b, lambda s: True)
+        return self._cmp(o, lambda a, b: a != b, lambda s: _np.True_)
 
     def __hash__(self):
         return id(self)
@@ -348,7 +386,7 @@ class SV:
         """round half to even (np.round / np.rint)"""
         if self.is_int:
             return self
-        x = self.e
+        x = self.r
         f = z3.ToInt(x)
         fr = x - z3.ToReal(f)
         half = z3.RealVal(1) / 2
@@ -358,12 +396,12 @@ class SV:
     def floor(self):
         if self.is_int:
             return self
-        return SV(z3.simplify(z3.ToReal(z3.ToInt(self.e))), is_int=True)
+        return SV(z3.simplify(z3.ToReal(z3.ToInt(self.r))), is_int=True)
 
     def ceil(self):
         if self.is_int:
             return self
-        return SV(z3.simplify(-z3.ToReal(z3.ToInt(-self.e))), is_int=True)
+        return SV(z3.simplify(-z3.ToReal(z3.ToInt(-self.r))), is_int=True)
 
     def __round__(self, n=None):
         return self.rint()
